@@ -4,6 +4,7 @@ import (
 	"bytes"
 	"encoding/json"
 	"os"
+	"runtime"
 	"fmt"
 	"io"
 	"math"
@@ -52,6 +53,18 @@ type c10C struct {
 	B  bool     `parquet:"b"`
 	Y  []byte   `parquet:"y,optional"`
 	W  []string `parquet:"w"`
+	ID int64    `parquet:"id"`
+}
+
+// repeated columns BEFORE the required key columns: a comparator that indexes rows by column
+// index (instead of scanning for the column) reads a list element in place of the key
+type c10D struct {
+	L  []int32  `parquet:"l"`
+	W  []string `parquet:"w"`
+	K  int32    `parquet:"k"`
+	S  string   `parquet:"s"`
+	U  uint32   `parquet:"u"`
+	P  *int32   `parquet:"p,optional"`
 	ID int64    `parquet:"id"`
 }
 
@@ -325,7 +338,7 @@ type c10Phase struct {
 type c10Result struct {
 	phases     []c10Phase // one or two
 	declared   []string   // SortingColumns() of the container
-	comparator func(parquet.Row, parquet.Row) int
+	comparator func(parquet.Row, parquet.Row) (int, string) // Schema.Comparator under recover: result, panic text
 }
 
 func c10ReadAll(rg parquet.RowGroup) (out []parquet.Row, err error) {
@@ -454,7 +467,23 @@ func c10Run[T any](cs *c10Case, rows []T, extra []T) (res c10Result, in1, in2 []
 	for _, s := range cs.Sorting {
 		scols = append(scols, s.column())
 	}
-	res.comparator = schema.Comparator(scols...)
+	res.comparator = func() (cmp func(parquet.Row, parquet.Row) (int, string)) {
+		defer func() {
+			if r := recover(); r != nil {
+				msg := fmt.Sprintf("Schema.Comparator(...) panicked: %v", r)
+				cmp = func(parquet.Row, parquet.Row) (int, string) { return 0, msg }
+			}
+		}()
+		lib := schema.Comparator(scols...)
+		return func(a, b parquet.Row) (c int, panicked string) {
+			defer func() {
+				if r := recover(); r != nil {
+					panicked = fmt.Sprint(r)
+				}
+			}()
+			return lib(a, b), ""
+		}
+	}()
 	for i := range rows {
 		in1 = append(in1, schema.Deconstruct(nil, &rows[i]))
 	}
@@ -723,7 +752,13 @@ func c10Check(ctx *core.Ctx, cs *c10Case, schema *parquet.Schema, res c10Result,
 					detail(map[string]any{"out": oc, "row_i": oc[i], "row_i+1": oc[i+1], "row_index": ph.rowIndex}))
 				return
 			}
-			if lc := res.comparator(out[i], out[i+1]); lc > 0 {
+			lc, lp := res.comparator(out[i], out[i+1])
+			if lp != "" {
+				ctx.Fail("L1", "schema-comparator-panics "+c10KeyKinds(keys), "Schema.Comparator panicked on two rows of the buffer: "+lp,
+					detail(map[string]any{"row_a": oc[i], "row_b": oc[i+1]}))
+				return
+			}
+			if lc > 0 {
 				ctx.Fail("L1", "order-disagrees-with-schema-comparator "+cs.Container, fmt.Sprintf("%s: Schema.Comparator says rows %d and %d are out of order", phase, i, i+1),
 					detail(map[string]any{"out": oc}))
 				return
@@ -743,7 +778,13 @@ func c10Check(ctx *core.Ctx, cs *c10Case, schema *parquet.Schema, res c10Result,
 		for t := 0; t < 2*n && t < 200; t++ {
 			a, b := in1[r.Intn(n)], in1[r.Intn(n)]
 			c, by, _ := c10Compare(keys, a, b)
-			if lc := sign(res.comparator(a, b)); lc != c {
+			lcRaw, lp := res.comparator(a, b)
+			if lp != "" {
+				ctx.Fail("L1", "schema-comparator-panics "+c10KeyKinds(keys), "Schema.Comparator panicked on two rows written: "+lp,
+					detail(map[string]any{"row_a": c10Canon(a), "row_b": c10Canon(b)}))
+				break
+			}
+			if lc := sign(lcRaw); lc != c {
 				kk := "equal-keys"
 				if by >= 0 {
 					kk = keys[by].colKind()
@@ -757,6 +798,39 @@ func c10Check(ctx *core.Ctx, cs *c10Case, schema *parquet.Schema, res c10Result,
 	}
 	_ = hasRep
 	_ = hasNullable
+}
+
+func c10KeyKinds(keys []c10Key) string {
+	seen := map[string]bool{}
+	for _, k := range keys {
+		seen[k.colKind()] = true
+	}
+	var ks []string
+	for k := range seen {
+		ks = append(ks, k)
+	}
+	sort.Strings(ks)
+	return "keys=" + strings.Join(ks, "+")
+}
+
+// c10Guard runs one step of the check; a panic anywhere in it (library call or oracle step) is an
+// L1 failure carrying the replayable input, never the end of the harness process.
+func c10Guard(ctx *core.Ctx, key, what string, detail func() map[string]any, f func()) {
+	defer func() {
+		if r := recover(); r != nil {
+			buf := make([]byte, 4096)
+			buf = buf[:runtime.Stack(buf, false)]
+			d := map[string]any{}
+			if detail != nil {
+				d = detail()
+			}
+			d["panic"] = fmt.Sprint(r)
+			d["stack"] = string(buf)
+			d["variant"] = ctx.Variant
+			ctx.Fail("L1", key, what+": panic: "+fmt.Sprint(r), d)
+		}
+	}()
+	f()
 }
 
 // ---------------------------------------------------------------- generators
@@ -883,6 +957,31 @@ func c10GenC(r *rand.Rand, n int, small bool, idBase int) []c10C {
 	return rows
 }
 
+func c10GenD(r *rand.Rand, n int, small bool, idBase int) []c10D {
+	rows := make([]c10D, n)
+	np := c10NullPattern(r, n)
+	for i := range rows {
+		for j := r.Intn(5); j > 0; j-- {
+			rows[i].L = append(rows[i].L, pick(r, c10Ints, false))
+		}
+		for j := r.Intn(4); j > 0; j-- {
+			rows[i].W = append(rows[i].W, pick(r, c10Strs, false))
+		}
+		rows[i].K = pick(r, c10Ints, small)
+		rows[i].S = pick(r, c10Strs, small)
+		rows[i].U = uint32(pick(r, c10Ints, small))
+		if !np[i] {
+			v := pick(r, c10Ints, small)
+			rows[i].P = &v
+		}
+		rows[i].ID = int64(idBase + i)
+		if small && r.Intn(2) == 0 {
+			rows[i].ID = int64(r.Intn(2))
+		}
+	}
+	return rows
+}
+
 type c10TypeInfo struct {
 	name string
 	cols [][]string // candidate sorting columns; repeated ones last
@@ -909,11 +1008,17 @@ func c10ReplayAs[T any](ctx *core.Ctx, cs *c10Case) error {
 }
 
 func c10Exec[T any](ctx *core.Ctx, cs *c10Case, rows, extra []T) {
-	schema := parquet.SchemaOf(new(T))
 	cs.Input, _ = json.Marshal(rows)
 	if cs.Extra >= 0 {
 		cs.InputMore, _ = json.Marshal(extra)
 	}
+	c10Guard(ctx, "panic-outside-guarded-call "+cs.Container, "a library call or an oracle step of the sort check panicked",
+		func() map[string]any { return map[string]any{"case": cs} },
+		func() { c10ExecUnguarded(ctx, cs, rows, extra) })
+}
+
+func c10ExecUnguarded[T any](ctx *core.Ctx, cs *c10Case, rows, extra []T) {
+	schema := parquet.SchemaOf(new(T))
 	res, in1, in2 := c10Run(cs, rows, extra)
 	cs.Rows = nil
 	for _, r := range in1 {
@@ -991,6 +1096,15 @@ var c10Types = []c10TypeInfo{
 			}
 			c10Exec(ctx, cs, rows, extra)
 		}, replay: c10ReplayAs[c10C]},
+	{name: "D{l []int32; w []string; k int32; s string; u uint32; p *int32?; id}", cols: [][]string{{"k"}, {"s"}, {"u"}, {"p"}, {"id"}, {"l"}, {"w"}}, nrep: 2,
+		run: func(ctx *core.Ctx, cs *c10Case, r *rand.Rand, n int, small bool) {
+			rows := c10GenD(r, n, small, 1000)
+			var extra []c10D
+			if cs.Extra >= 0 {
+				extra = c10GenD(r, cs.Extra, small, 5000)
+			}
+			c10Exec(ctx, cs, rows, extra)
+		}, replay: c10ReplayAs[c10D]},
 }
 
 // c10ReplayFile runs one recorded case: a corpus file (a c10Case) or a replay file written by
@@ -1095,7 +1209,9 @@ func c10Kernel(ctx *core.Ctx, d interface {
 	for _, n := range lens {
 		for _, base := range bases {
 			for _, slack := range []int{0, 3} { // capacity larger than the length, dirty
-				c10KernelOne(ctx, n, base, slack, &reqs, &pend)
+				c10Guard(ctx, "panic-in-range-kernel", "broadcastRangeInt32 panicked",
+					func() map[string]any { return map[string]any{"len": n, "base": base} },
+					func() { c10KernelOne(ctx, n, base, slack, &reqs, &pend) })
 			}
 		}
 	}
@@ -1322,23 +1438,26 @@ func c10History(ctx *core.Ctx, r *rand.Rand, reqs *[]string, pend *[]func(string
 // ---------------------------------------------------------------- entry point
 
 func RunC10(ctx *core.Ctx) {
-	ctx.SetRule("L1: sort.Sort on GenericBuffer[T] (typed Write and WriteRows), Buffer, RowBuffer[T], and SortingWriter[T] Close over three struct schemas (required / optional pointer / optional zero-is-null / nested optional group / repeated leaves), 0-3 sorting columns x asc/desc x nulls first/last, null and value runs of length 1,2,3,7,8,9,15,16,17,64,65, small alphabets (duplicates), write batches around 8 and 64, optional second phase (write more, sort again); L2: broadcastRangeInt32 for lengths 0..40,63..65,127..129,255,257 x 17 bases, and write/Swap/Less/Page histories on one optional column against the Lean OptCol mirror. Distinct by canonical input; non-trivial = some nullable sorting column holds both nulls and values (L1), run length >= 8 not a multiple of 8 (kernel), more than 3 ops (history)")
+	ctx.SetRule("L1: sort.Sort on GenericBuffer[T] (typed Write and WriteRows), Buffer, RowBuffer[T], and SortingWriter[T] Close over four struct schemas (required / optional pointer / optional zero-is-null / nested optional group / repeated leaves, also repeated leaves placed before the required key columns), 0-3 sorting columns x asc/desc x nulls first/last, null and value runs of length 1,2,3,7,8,9,15,16,17,64,65, small alphabets (duplicates), write batches around 8 and 64, optional second phase (write more, sort again); L2: broadcastRangeInt32 for lengths 0..40,63..65,127..129,255,257 x 17 bases, and write/Swap/Less/Page histories on one optional column against the Lean OptCol mirror. Distinct by canonical input; non-trivial = some nullable sorting column holds both nulls and values (L1), run length >= 8 not a multiple of 8 (kernel), more than 3 ops (history)")
 	d := ctx.Driver()
 	if ctx.Replay != "" {
-		c10ReplayFile(ctx, ctx.Replay)
+		c10Guard(ctx, "panic-in-replay", "replaying a recorded case panicked", func() map[string]any { return map[string]any{"file": ctx.Replay} },
+			func() { c10ReplayFile(ctx, ctx.Replay) })
 		return
 	}
 	// 0. the kernel corpus cases, then the kernel sweep, then the recorded sort cases
 	for _, f := range ctx.CorpusFiles() {
 		if strings.Contains(f, "kernel") {
-			c10ReplayFile(ctx, f)
+			c10Guard(ctx, "panic-in-replay", "replaying a recorded case panicked", func() map[string]any { return map[string]any{"file": f} },
+				func() { c10ReplayFile(ctx, f) })
 		}
 	}
 	// 1. the kernel first: later symptoms are attributed to it when it is broken
 	c10Kernel(ctx, d)
 	for _, f := range ctx.CorpusFiles() {
 		if !strings.Contains(f, "kernel") {
-			c10ReplayFile(ctx, f)
+			c10Guard(ctx, "panic-in-replay", "replaying a recorded case panicked", func() map[string]any { return map[string]any{"file": f} },
+				func() { c10ReplayFile(ctx, f) })
 		}
 	}
 	// 2. L2 histories
@@ -1347,7 +1466,8 @@ func RunC10(ctx *core.Ctx) {
 		var reqs []string
 		var pend []func(string)
 		for i, n := 0, ctx.Scale(6000, 60000); i < n; i++ {
-			c10History(ctx, r, &reqs, &pend)
+			c10Guard(ctx, "panic-in-optional-buffer-history", "a write/Swap/Less/Page history panicked outside its guarded operations", nil,
+				func() { c10History(ctx, r, &reqs, &pend) })
 			if len(reqs) >= 2000 {
 				c06Flush(ctx, d, &reqs, &pend)
 			}
@@ -1369,7 +1489,9 @@ func RunC10(ctx *core.Ctx) {
 				if w == 0 && i < 3 {
 					ctx.Sample(map[string]any{"type": cs.Type, "container": cs.Container, "sorting": fmt.Sprint(cs.Sorting), "rows": n, "batches": fmt.Sprint(cs.Batches)})
 				}
-				c10Types[ti].run(ctx, cs, r, n, small)
+				c10Guard(ctx, "panic-in-case-generation", "generating or running a sort case panicked",
+					func() map[string]any { return map[string]any{"case": cs} },
+					func() { c10Types[ti].run(ctx, cs, r, n, small) })
 			}
 		}(w)
 	}
